@@ -1224,6 +1224,26 @@ def _no_nan_lanes(vt, names_):
     return ok
 
 
+def _no_snan_lanes(vt, names_):
+    """fmax/fmin: the statement ("the other operand when exactly one is NaN") and the C library it names as
+    the definition (glibc >= 2.25 returns a quiet NaN when an operand is a *signalling* NaN, as IEEE
+    754-2008 maxNum does) disagree for signalling NaNs, so those operands are outside the decided domain"""
+    def ok(vals, names):
+        mb = 23 if vt.eb == 32 else 52
+        for nm in names_:
+            if nm not in names:
+                continue
+            v = vals[names.index(nm)]
+            for i in range(vt.n):
+                ln = (v >> (i * vt.eb)) & ((1 << vt.eb) - 1)
+                e = (ln >> mb) & ((1 << (vt.eb - 1 - mb)) - 1)
+                m = ln & ((1 << mb) - 1)
+                if e == (1 << (vt.eb - 1 - mb)) - 1 and m and not (m >> (mb - 1)) & 1:
+                    return False
+        return True
+    return ok
+
+
 def _fdim_domain(vt):
     """no NaN operand; not both infinite with the same sign (the statement defines fdim as max(x-y, 0),
     which leaves inf - inf open)"""
@@ -1343,8 +1363,10 @@ def fam_cmathx(vt, cfg):
             i.env_ok = env_ok
         i.budget_s = 4
         I.append(i)
-    add(Inst("fmax", VV, "V", "avel::fmax(a, b)", lanewise2(lambda c, x, y: T.op("spec:c_fmax", eb, x, y))))
-    add(Inst("fmin", VV, "V", "avel::fmin(a, b)", lanewise2(lambda c, x, y: T.op("spec:c_fmin", eb, x, y))))
+    add(Inst("fmax", VV, "V", "avel::fmax(a, b)", lanewise2(lambda c, x, y: T.op("spec:c_fmax", eb, x, y))),
+        env_ok=_no_snan_lanes(vt, ("a", "b")))
+    add(Inst("fmin", VV, "V", "avel::fmin(a, b)", lanewise2(lambda c, x, y: T.op("spec:c_fmin", eb, x, y))),
+        env_ok=_no_snan_lanes(vt, ("a", "b")))
     add(Inst("fdim", VV, "V", "avel::fdim(a, b)", lanewise2(lambda c, x, y: T.op("spec:c_fdim", eb, x, y))),
         env_ok=_fdim_domain(vt))
     add(Inst("frac", A, "V", "avel::frac(a)", lanewise1(lambda c, x: T.op("spec:c_frac", eb, x))))
